@@ -20,18 +20,40 @@ use serde_json::{json, Value};
 use std::io::{self, Write};
 use std::sync::{Arc, Mutex};
 
-// the universally quantified auto-trait clause: compiles only if Muxer<W>: Send for all W: Send
-// (and Sync likewise). A failure is a build error of the harness = exit 2 with this text.
-#[allow(dead_code)]
-fn muxer_is_send_for_every_send_sink<W: Write + Send>() {
-    fn is_send<T: Send>() {}
-    is_send::<Muxer<W>>();
-    is_send::<MuxerBuilder<W>>();
-}
-#[allow(dead_code)]
-fn muxer_is_sync_for_every_sync_sink<W: Write + Sync>() {
-    fn is_sync<T: Sync>() {}
-    is_sync::<Muxer<W>>();
+// The universally quantified auto-trait clause (Muxer<W>: Send for all W: Send; FragmentedMuxer:
+// Send) lives in the separate crate harness/sendprobe, which this check builds on its own: a
+// compile error there is a C17 verdict, while this harness keeps building (it moves muxers
+// between threads through `ForceSend`, so the run-time clauses stay observable either way).
+pub struct ForceSend<T>(pub T);
+// SAFETY (harness-side): the wrapped value is handed to exactly one other thread while the sending
+// thread blocks in join(); nothing is accessed concurrently.
+unsafe impl<T> Send for ForceSend<T> {}
+
+/// builds harness/sendprobe; Ok(()) = compiles, Err(Some(log)) = auto trait lost, Err(None) = machinery
+pub fn send_probe() -> Result<(), Option<String>> {
+    let root = std::env::var("VERIF_ROOT").unwrap_or_else(|_| "/verif".into());
+    let out = std::process::Command::new("cargo")
+        .args(["build", "--offline", "-q"])
+        .current_dir(format!("{root}/harness/sendprobe"))
+        .env("CARGO_TARGET_DIR", format!("{root}/target/sendprobe"))
+        .env("CARGO_NET_OFFLINE", "true")
+        .output();
+    match out {
+        Ok(o) if o.status.success() => Ok(()),
+        Ok(o) => {
+            let e = String::from_utf8_lossy(&o.stderr).to_string();
+            if e.contains("E0277") || e.contains("cannot be sent between threads safely") {
+                Err(Some(e))
+            } else {
+                eprintln!("send probe: unexpected build failure (machinery):\n{e}");
+                Err(None)
+            }
+        }
+        Err(e) => {
+            eprintln!("send probe: cannot run cargo: {e}");
+            Err(None)
+        }
+    }
 }
 
 #[derive(Clone, Debug)]
@@ -506,6 +528,30 @@ fn same_thread_part(t: &mut Tally) {
             }
         }
     }
+    // every program moved to another thread after each prefix of its calls
+    for (pi, p) in progs.iter().enumerate() {
+        let calls = any_calls(p);
+        for cut in 0..=calls.len() {
+            t.evaluations += 1;
+            let mut inst = Inst::new(p);
+            let mut r: Vec<String> = calls[..cut].iter().map(|o| inst.step(o)).collect();
+            let rest: Vec<AnyOp> = calls[cut..].to_vec();
+            let moved = ForceSend(inst);
+            let (r2, b) = std::thread::spawn(move || {
+                oracle::report::quiet_panics();
+                let mut moved = moved;
+                let r2: Vec<String> = rest.iter().map(|o| moved.0.step(o)).collect();
+                (r2, moved.0.bytes())
+            })
+            .join()
+            .expect("moved instance");
+            r.extend(r2);
+            t.transitions += calls.len() as u64;
+            if (r, b) != solos[pi] {
+                t.violation("C17/moved-between-threads-changes-output", (198, (pi * 100 + cut) as u64), || format!("program {} moved to another thread after {cut} calls differs from its solo run", p.name), || json!({"engine": "E4-same-thread", "a": p.name, "b": p.name, "interleaving": [], "moved_after": cut}));
+            }
+        }
+    }
     let mut k = 0u64;
     for i in 0..progs.len() {
         for j in 0..progs.len() {
@@ -694,10 +740,10 @@ fn paths_for(cfg: &Cfg, ops: &[Op], order: (u64, u64), t: &mut Tally) {
         let mut r: Vec<String> = ops[..half].iter().map(|o| res_str(&apply(&mut m, o))).collect();
         let rest: Vec<Op> = ops[half..].to_vec();
         let (tx, rx) = std::sync::mpsc::channel();
-        tx.send(m).unwrap();
+        tx.send(ForceSend(m)).unwrap();
         let r2 = std::thread::spawn(move || {
             oracle::report::quiet_panics();
-            let mut m = rx.recv().unwrap();
+            let mut m = rx.recv().unwrap().0;
             let mut r: Vec<String> = rest.iter().map(|o| res_str(&apply(&mut m, o))).collect();
             let f = apply(&mut m, &Op::FinishInPlace);
             r.push(if f.is_ok() { "Ok".into() } else { res_str(&f) });
@@ -1184,6 +1230,14 @@ pub fn check(ctx: &Ctx) -> i32 {
     }
     same_thread_part(&mut tally);
     failed_neighbour_part(&mut tally);
+    match send_probe() {
+        Ok(()) => tally.count("send_probe_compiles", 1),
+        Err(Some(log)) => {
+            let first = log.lines().find(|l| l.contains("cannot be sent") || l.contains("E0277")).unwrap_or("").to_string();
+            tally.violation("C17/auto-trait/muxer-not-send", (400, 0), || format!("harness/sendprobe does not compile: Muxer<W> for some W: Send, or FragmentedMuxer, is not Send ({first})"), || json!({"engine": "send-probe"}));
+        }
+        Err(None) => return 2,
+    }
     // equivalent paths over a history set
     let (nv, na) = if ctx.thorough { (3, 2) } else { (2, 2) };
     let mut items = vec![];
@@ -1253,6 +1307,17 @@ pub fn replay(case: &Value) -> i32 {
                 }
             }
         }
+        Some("send-probe") => match send_probe() {
+            Ok(()) => {
+                println!("harness/sendprobe compiles: Muxer<W: Send> and FragmentedMuxer are Send");
+                0
+            }
+            Err(Some(log)) => {
+                println!("replay: VIOLATION C17/auto-trait/muxer-not-send\n{log}");
+                1
+            }
+            Err(None) => 2,
+        },
         Some("E1-paths") => {
             let cfg: Cfg = serde_json::from_value(case["cfg"].clone()).unwrap();
             let ops: Vec<Op> = serde_json::from_value(case["ops"].clone()).unwrap();
